@@ -44,6 +44,7 @@ impl Report {
     /// n oracle comparisons were made
     #[inline]
     pub fn eval(&mut self, n: u64) {
+        crate::tick();
         self.evaluations += n;
     }
     /// a distinct non-trivial case (by the monitor's stated rule)
